@@ -75,6 +75,18 @@ Theorem C12_feedback_never_blocks : forall n m ls s i, runw fixed (init n m) ls 
 Proof. exact never_blocks_lemma. Qed.
 Print Assumptions C12_feedback_never_blocks.
 
+(* The input buffer has room for every token holder - all token counts n, no bound: in every state
+   reactor + well-formed client reach, (calls carrying a tracked seed towards the input channel)
+   + (items buffered in it) <= tracked seeds <= tokens in use <= n = capacity of the input channel.
+   (The model's single [cap] is tied to the real cap(tokenPool) and cap(input) for n up to 200000 by
+   the `reactorcfg` driver.) *)
+Theorem C12_input_has_room : forall n m ls s, runw fixed (init n m) ls = Some s ->
+  cap s = n
+  /\ sumw w_loc (calls s) + length (input s) <= length (table s)
+  /\ length (table s) <= tokens s /\ tokens s <= cap s.
+Proof. exact input_has_room_lemma. Qed.
+Print Assumptions C12_input_has_room.
+
 Theorem C12_wellformed_client_never_panics : forall n m ls s,
   runw fixed (init n m) ls = Some s -> crashed s = false.
 Proof. exact wf_no_crash_lemma. Qed.
